@@ -39,7 +39,10 @@ type preset struct {
 }
 
 func (m *Model) GetPositions(opts ...resource.ReadOption) (*traits.OpenClosePositions, error) {
-	allPositions := m.positions.List(opts...) // already sorted by ID aka Direction ordinal
+	// the read mask describes OpenClosePositions, not the OpenClosePosition items the collection holds,
+	// so it is applied to the result below rather than passed to List
+	readRequest := resource.ComputeReadConfig(opts...)
+	allPositions := m.positions.List() // already sorted by ID aka Direction ordinal
 	dst := &traits.OpenClosePositions{
 		States: make([]*traits.OpenClosePosition, len(allPositions)),
 	}
@@ -52,7 +55,8 @@ func (m *Model) GetPositions(opts ...resource.ReadOption) (*traits.OpenClosePosi
 		dst.Preset = preset
 	}
 
-	return dst, nil
+	// dst refers to stored values so must not be modified in place
+	return readRequest.ResponseFilter().FilterClone(dst).(*traits.OpenClosePositions), nil
 }
 
 func (m *Model) GetPosition(dir traits.OpenClosePosition_Direction, opts ...resource.ReadOption) (*traits.OpenClosePosition, error) {
